@@ -217,6 +217,11 @@ func (c *loopClient) PostCall(e *Engine, st *State, call *ast.CallExpr, callee *
 			}
 			return st
 		}
+		// a jump forwards (to the position of something found further on, or to the end of the text) gives nothing
+		// back: what was read so far still counts
+		if c.forwardJump(e, st, call) {
+			return nil
+		}
 		for k := range st.ext {
 			if strings.HasPrefix(k, "prog:") || k == "net" {
 				st = st.WithExt(k, "?")
@@ -230,6 +235,51 @@ func (c *loopClient) PostCall(e *Engine, st *State, call *ast.CallExpr, callee *
 		return c.bump(st, m)
 	}
 	return nil
+}
+
+// forwardJump: X.setPos(X.pos + n...) with every n known >= 0, or X.setPos(len(text of X)) while the position
+// invariant (pos <= len(text)) holds.
+func (c *loopClient) forwardJump(e *Engine, st *State, call *ast.CallExpr) bool {
+	info := e.Info
+	fs, ok := ast.Unparen(call.Fun).(*ast.SelectorExpr)
+	if !ok || len(call.Args) != 1 {
+		return false
+	}
+	recv := fs.X
+	arg := ast.Unparen(call.Args[0])
+	if lc, ok := arg.(*ast.CallExpr); ok && IsBuiltinCall(info, lc, "len") && len(lc.Args) == 1 && c.w.p.scannerTextOf(lc.Args[0], recv) {
+		inv, _ := c.w.p.scannerPosInvariant()
+		return inv
+	}
+	var terms []ast.Expr
+	var flat func(x ast.Expr)
+	flat = func(x ast.Expr) {
+		if b, ok := ast.Unparen(x).(*ast.BinaryExpr); ok && b.Op == token.ADD {
+			flat(b.X)
+			flat(b.Y)
+			return
+		}
+		terms = append(terms, ast.Unparen(x))
+	}
+	flat(arg)
+	base := 0
+	for _, t := range terms {
+		if sel, ok := t.(*ast.SelectorExpr); ok && selName(sel) == "pos" && sameExpr(info, sel.X, recv) {
+			base++
+			continue
+		}
+		if v, ok := constInt(info, t); ok {
+			if v < 0 {
+				return false
+			}
+			continue
+		}
+		f := e.FactOf(st, t)
+		if f == nil || f.Lo == nil || *f.Lo < 0 {
+			return false
+		}
+	}
+	return base == 1
 }
 
 // entryRelative: x is `start` or `start + k` where start := <cursor>.pos is the first statement of the function.
